@@ -15862,3 +15862,413 @@ func assignedBeforeUse(fd *ast.FuncDecl, info *types.Info, o types.Object, pos t
 	}
 	return false
 }
+
+// E11PointCompareTolerant: methods whose results are indexed in step decide "same point" with Equals, not with == or !=.
+func E11PointCompareTolerant(c *core.Ctx, r *core.Report) {
+	r.Rule("E11.point-compare-tolerant", "whether two coordinates are the same point is decided by Point.Equals (within Epsilon) in the path code: a LineTo ending within Epsilon of the start of its sub-path has closed it. Where a function walks the result of one Path method and indexes the result of another with the same index (Markers: `for i := range p.Coords() { … p.CoordDirections()[i] }`), the two methods must return equally many entries for every path, so neither may decide that question differently: inside such methods two Point values are never compared with == or != (bit for bit). With an exact test in Coords, a path whose last LineTo ends within Epsilon of the start (the result of a transformation or of an arc's end-point computation) and is then closed gets one coordinate more than it gets directions and Markers indexes past the end")
+	p := c.MustPkg("")
+	info := p.TypesInfo
+	// methods zipped by index
+	type pair struct {
+		user *ast.FuncDecl
+		a, b *types.Func
+	}
+	var pairs []pair
+	for _, fd := range core.AllFuncDecls(p) {
+		if fd.Body == nil {
+			continue
+		}
+		from := map[types.Object]*types.Func{}
+		ast.Inspect(fd.Body, func(m ast.Node) bool {
+			as, ok := m.(*ast.AssignStmt)
+			if !ok || len(as.Lhs) != 1 || len(as.Rhs) != 1 {
+				return true
+			}
+			ce, ok := core.Unparen(as.Rhs[0]).(*ast.CallExpr)
+			if !ok {
+				return true
+			}
+			f := core.CalleeOf(info, ce)
+			if f == nil || f.Pkg() != p.Types {
+				return true
+			}
+			if sig := f.Type().(*types.Signature); sig.Recv() == nil || sig.Results().Len() != 1 {
+				return true
+			} else if _, ok := sig.Results().At(0).Type().Underlying().(*types.Slice); !ok {
+				return true
+			}
+			if id, ok := as.Lhs[0].(*ast.Ident); ok {
+				from[core.ObjOf(info, id)] = f
+			}
+			return true
+		})
+		if len(from) < 2 {
+			continue
+		}
+		ast.Inspect(fd.Body, func(m ast.Node) bool {
+			rs, ok := m.(*ast.RangeStmt)
+			if !ok || rs.Key == nil {
+				return true
+			}
+			xid, ok := core.Unparen(rs.X).(*ast.Ident)
+			kid, ok2 := rs.Key.(*ast.Ident)
+			if !ok || !ok2 || from[core.ObjOf(info, xid)] == nil {
+				return true
+			}
+			ko := core.ObjOf(info, kid)
+			ast.Inspect(rs.Body, func(q ast.Node) bool {
+				ie, ok := q.(*ast.IndexExpr)
+				if !ok {
+					return true
+				}
+				yid, ok := core.Unparen(ie.X).(*ast.Ident)
+				iid, ok2 := core.Unparen(ie.Index).(*ast.Ident)
+				if !ok || !ok2 || core.ObjOf(info, iid) != ko {
+					return true
+				}
+				g := from[core.ObjOf(info, yid)]
+				if g == nil || g == from[core.ObjOf(info, xid)] {
+					return true
+				}
+				for _, pr := range pairs {
+					if pr.user == fd && pr.b == g {
+						return true
+					}
+				}
+				pairs = append(pairs, pair{fd, from[core.ObjOf(info, xid)], g})
+				return true
+			})
+			return true
+		})
+	}
+	seen := map[*types.Func]bool{}
+	for _, pr := range pairs {
+		for _, f := range []*types.Func{pr.a, pr.b} {
+			if seen[f] {
+				continue
+			}
+			seen[f] = true
+			var fd *ast.FuncDecl
+			for _, d := range core.AllFuncDecls(p) {
+				if info.Defs[d.Name] == f {
+					fd = d
+				}
+			}
+			key := fmt.Sprintf("canvas.%s|indexed in step with a sibling by %s: no exact comparison of points", f.Name(), core.FuncName(pr.user))
+			if fd == nil || fd.Body == nil {
+				r.Fail("E11.point-compare-tolerant", key, "", "declaration not found")
+				continue
+			}
+			r.Func("canvas." + core.FuncName(fd))
+			bad := ""
+			var badPos token.Pos
+			ast.Inspect(fd.Body, func(m ast.Node) bool {
+				be, ok := m.(*ast.BinaryExpr)
+				if !ok || (be.Op != token.EQL && be.Op != token.NEQ) {
+					return true
+				}
+				nx, okx := info.TypeOf(be.X).(*types.Named)
+				ny, oky := info.TypeOf(be.Y).(*types.Named)
+				if okx && oky && nx.Obj().Name() == "Point" && ny.Obj().Name() == "Point" && nx.Obj().Pkg() == p.Types && bad == "" {
+					bad, badPos = c.Src(be), be.Pos()
+				}
+				return true
+			})
+			if bad != "" {
+				r.Fail("E11.point-compare-tolerant", key, c.Pos(badPos), fmt.Sprintf("`%s` compares two points bit for bit where its sibling uses Equals: for end points that differ within Epsilon the two results have different lengths and %s indexes one with the other's index", bad, core.FuncName(pr.user)))
+			} else {
+				r.OK("E11.point-compare-tolerant", key, c.Pos(fd.Pos()), "")
+			}
+		}
+	}
+	r.Count("E11.zipped-sibling-pairs", len(pairs))
+	r.Floor("E11.zipped-sibling-pairs", 1)
+}
+
+// E11ClusterOffsetBytes: glyph clusters are byte offsets into the text; the per-run offset advances by byte lengths.
+func E11ClusterOffsetBytes(c *core.Ctx, r *core.Report) {
+	r.Rule("E11.cluster-offset-bytes", "a glyph's Cluster is the byte offset of its first character in the text that was shaped; RichText.ToText shapes run by run and makes the clusters global by adding an offset (`glyph.Cluster += off`), which the object table (rt.objects), the run indexer and the text written to PDF/SVG (`log[a.Cluster:b.Cluster]`) all read as a byte offset into the whole text. The offset is therefore advanced by the byte length of each run: every assignment `off += E` has for E (conversions removed) `len(s)` of a string. A rune count (utf8.RuneCountInString, len([]rune(s))) is the same number for ASCII only: after a run with an accented or non-Latin character every later glyph points before its character, embedded objects are not found and the selectable text of the PDF is shifted")
+	p := c.MustPkg("")
+	info := p.TypesInfo
+	n := 0
+	for _, fd := range core.AllFuncDecls(p) {
+		if fd.Body == nil {
+			continue
+		}
+		offs := map[types.Object]bool{}
+		ast.Inspect(fd.Body, func(m ast.Node) bool {
+			as, ok := m.(*ast.AssignStmt)
+			if !ok || as.Tok != token.ADD_ASSIGN || len(as.Lhs) != 1 {
+				return true
+			}
+			se, ok := as.Lhs[0].(*ast.SelectorExpr)
+			if !ok || se.Sel.Name != "Cluster" {
+				return true
+			}
+			if id, ok := core.Unparen(as.Rhs[0]).(*ast.Ident); ok {
+				offs[core.ObjOf(info, id)] = true
+			}
+			return true
+		})
+		if len(offs) == 0 {
+			continue
+		}
+		r.Func("canvas." + core.FuncName(fd))
+		ast.Inspect(fd.Body, func(m ast.Node) bool {
+			as, ok := m.(*ast.AssignStmt)
+			if !ok || len(as.Lhs) != 1 || len(as.Rhs) != 1 {
+				return true
+			}
+			id, ok := as.Lhs[0].(*ast.Ident)
+			if !ok || !offs[core.ObjOf(info, id)] {
+				return true
+			}
+			if as.Tok == token.DEFINE || as.Tok == token.ASSIGN {
+				if v, ok := core.ConstInt(info, stripConv(info, as.Rhs[0])); ok && v == 0 {
+					return true // starts at zero
+				}
+			}
+			n++
+			key := fmt.Sprintf("canvas.%s|cluster offset `%s` step #%d is a byte length", core.FuncName(fd), id.Name, n)
+			e := stripConv(info, as.Rhs[0])
+			good := false
+			if as.Tok == token.ADD_ASSIGN {
+				if ce, ok := e.(*ast.CallExpr); ok && len(ce.Args) == 1 {
+					if fid, ok := ce.Fun.(*ast.Ident); ok && fid.Name == "len" {
+						if _, isBuiltin := info.Uses[fid].(*types.Builtin); isBuiltin {
+							if bt, ok := info.TypeOf(ce.Args[0]).Underlying().(*types.Basic); ok && bt.Info()&types.IsString != 0 {
+								good = true
+							}
+						}
+					}
+				}
+			}
+			if good {
+				r.OK("E11.cluster-offset-bytes", key, c.Pos(as.Pos()), c.Src(as.Rhs[0]))
+			} else {
+				r.Fail("E11.cluster-offset-bytes", key, c.Pos(as.Pos()), fmt.Sprintf("the offset added to every glyph's Cluster moves by `%s`, which is not the byte length of a string: clusters are byte offsets into the text, so after the first run with a multi-byte character every later glyph points at the wrong bytes", c.Src(as.Rhs[0])))
+			}
+			return true
+		})
+	}
+	r.Count("E11.cluster-offset-steps", n)
+	r.Floor("E11.cluster-offset-steps", 1)
+}
+
+// stripConv removes parentheses and type conversions.
+func stripConv(info *types.Info, e ast.Expr) ast.Expr {
+	for {
+		e = core.Unparen(e)
+		ce, ok := e.(*ast.CallExpr)
+		if !ok || len(ce.Args) != 1 {
+			return e
+		}
+		if tv, ok := info.Types[ce.Fun]; ok && tv.IsType() {
+			e = ce.Args[0]
+			continue
+		}
+		return e
+	}
+}
+
+// E11JoinerSidesConsistent: a joiner never draws a point that belongs to one side of the stroke onto the other side.
+func E11JoinerSidesConsistent(c *core.Ctx, r *core.Report) {
+	r.Rule("E11.joiner-sides-consistent", "a Joiner's Join(rhs, lhs, …) extends the right-hand and the left-hand offset path of a stroke around a corner. Every joiner ends by bringing each side to its own end point (`rhs.LineTo(E.X, E.Y)` / `lhs.LineTo(F.X, F.Y)` at the top level of the body), which tells which local point belongs to which side. Interpreted once per truth value of the bare boolean identifiers the body branches on (cw), every drawing call on a path that is the one side has arguments computed from neutral values and values of that same side only — never from the other side's path or end point. A miter-clip corner interpolated from the inner side's end point makes the edge towards the outer end point a chord through the half-width circle around the vertex: points closer than w/2 to the path are left out of the stroke, for right-hand bends only")
+	p := c.MustPkg("")
+	info := p.TypesInfo
+	n := 0
+	for _, fd := range core.AllFuncDecls(p) {
+		if fd.Body == nil || fd.Name.Name != "Join" || fd.Recv == nil {
+			continue
+		}
+		ro, lo := paramObj(info, fd, 0), paramObj(info, fd, 1)
+		if ro == nil || lo == nil || !isNamedDeref(ro.Type(), "Path") || !isNamedDeref(lo.Type(), "Path") {
+			continue
+		}
+		r.Func("canvas." + core.FuncName(fd))
+		base := map[types.Object]string{ro: "r", lo: "l"}
+		// end points: S.LineTo(P.X, P.Y) at the top level
+		for _, st := range fd.Body.List {
+			es, ok := st.(*ast.ExprStmt)
+			if !ok {
+				continue
+			}
+			ce, ok := es.X.(*ast.CallExpr)
+			if !ok || len(ce.Args) != 2 {
+				continue
+			}
+			se, ok := ce.Fun.(*ast.SelectorExpr)
+			if !ok || se.Sel.Name != "LineTo" {
+				continue
+			}
+			sid, ok := core.Unparen(se.X).(*ast.Ident)
+			if !ok || base[core.ObjOf(info, sid)] == "" {
+				continue
+			}
+			var pts []types.Object
+			for _, a := range ce.Args {
+				if as, ok := core.Unparen(a).(*ast.SelectorExpr); ok {
+					if pid, ok := core.Unparen(as.X).(*ast.Ident); ok {
+						pts = append(pts, core.ObjOf(info, pid))
+					}
+				}
+			}
+			if len(pts) == 2 && pts[0] == pts[1] && base[pts[0]] == "" {
+				base[pts[0]] = base[core.ObjOf(info, sid)]
+			}
+		}
+		// the boolean identifiers the body branches on
+		var bools []types.Object
+		ast.Inspect(fd.Body, func(m ast.Node) bool {
+			if is, ok := m.(*ast.IfStmt); ok {
+				e := core.Unparen(is.Cond)
+				if u, ok := e.(*ast.UnaryExpr); ok && u.Op == token.NOT {
+					e = core.Unparen(u.X)
+				}
+				if id, ok := e.(*ast.Ident); ok {
+					o := core.ObjOf(info, id)
+					dup := false
+					for _, b := range bools {
+						dup = dup || b == o
+					}
+					if !dup && o != nil {
+						bools = append(bools, o)
+					}
+				}
+			}
+			return true
+		})
+		if len(bools) > 4 {
+			bools = bools[:4]
+		}
+		type finding struct {
+			pos  token.Pos
+			what string
+		}
+		found := map[token.Pos]finding{}
+		calls := map[token.Pos]bool{}
+		for w := 0; w < 1<<len(bools); w++ {
+			world := map[types.Object]bool{}
+			for i, b := range bools {
+				world[b] = w&(1<<i) != 0
+			}
+			side := map[types.Object]string{}
+			for o, s := range base {
+				side[o] = s
+			}
+			var sideOf func(e ast.Expr) string
+			sideOf = func(e ast.Expr) string {
+				s := ""
+				ast.Inspect(e, func(q ast.Node) bool {
+					if id, ok := q.(*ast.Ident); ok {
+						if t := side[core.ObjOf(info, id)]; t != "" {
+							if s == "" {
+								s = t
+							} else if s != t {
+								s = "x"
+							}
+						}
+					}
+					return true
+				})
+				return s
+			}
+			var walk func(st ast.Stmt) bool // false: returned
+			walkBlock := func(b *ast.BlockStmt) bool {
+				for _, s := range b.List {
+					if !walk(s) {
+						return false
+					}
+				}
+				return true
+			}
+			walk = func(st ast.Stmt) bool {
+				switch x := st.(type) {
+				case *ast.ReturnStmt:
+					return false
+				case *ast.BlockStmt:
+					return walkBlock(x)
+				case *ast.AssignStmt:
+					if len(x.Lhs) == len(x.Rhs) {
+						vals := make([]string, len(x.Rhs))
+						for i, e := range x.Rhs {
+							vals[i] = sideOf(e)
+						}
+						for i, l := range x.Lhs {
+							if id, ok := l.(*ast.Ident); ok {
+								if o := core.ObjOf(info, id); o != nil && base[o] == "" {
+									side[o] = vals[i]
+								}
+							}
+						}
+					}
+				case *ast.IfStmt:
+					if x.Init != nil {
+						walk(x.Init)
+					}
+					e := core.Unparen(x.Cond)
+					neg := false
+					if u, ok := e.(*ast.UnaryExpr); ok && u.Op == token.NOT {
+						e, neg = core.Unparen(u.X), true
+					}
+					if id, ok := e.(*ast.Ident); ok {
+						if v, ok := world[core.ObjOf(info, id)]; ok {
+							if v != neg {
+								return walkBlock(x.Body)
+							} else if x.Else != nil {
+								return walk(x.Else)
+							}
+							return true
+						}
+					}
+					// undecided condition: both arms one after the other (sides only grow towards "x")
+					a := walkBlock(x.Body)
+					b := true
+					if x.Else != nil {
+						b = walk(x.Else)
+					}
+					return a || b
+				case *ast.ExprStmt:
+					ce, ok := x.X.(*ast.CallExpr)
+					if !ok {
+						return true
+					}
+					se, ok := ce.Fun.(*ast.SelectorExpr)
+					if !ok || !isNamedDeref(info.TypeOf(se.X), "Path") {
+						return true
+					}
+					rs := sideOf(se.X)
+					if rs != "l" && rs != "r" {
+						return true
+					}
+					calls[ce.Pos()] = true
+					for _, a := range ce.Args {
+						as := sideOf(a)
+						if as != "" && as != "x" && as != rs {
+							names := map[string]string{"l": "left-hand", "r": "right-hand"}
+							found[ce.Pos()] = finding{ce.Pos(), fmt.Sprintf("`%s` draws on the %s side with `%s`, a value of the %s side", c.Src(ce), names[rs], c.Src(a), names[as])}
+						}
+					}
+				}
+				return true
+			}
+			walkBlock(fd.Body)
+		}
+		var ps []token.Pos
+		for pos := range calls {
+			ps = append(ps, pos)
+		}
+		sort.Slice(ps, func(i, j int) bool { return ps[i] < ps[j] })
+		for i, pos := range ps {
+			n++
+			key := fmt.Sprintf("canvas.%s|drawing call #%d stays on its side", core.FuncName(fd), i+1)
+			if f, bad := found[pos]; bad {
+				r.Fail("E11.joiner-sides-consistent", key, c.Pos(pos), f.what+": the corner of the outer side is built from the inner side's end point, and part of the half-width disc around the vertex is left out of the stroke")
+			} else {
+				r.OK("E11.joiner-sides-consistent", key, c.Pos(pos), "")
+			}
+		}
+	}
+	r.Count("E11.joiner-drawing-calls", n)
+	r.Floor("E11.joiner-drawing-calls", 8)
+}
